@@ -23,7 +23,9 @@ class _Weighted(Entry):
     def gen_batch(self, rng, cfg, n):
         shape2 = rng.random() < 0.25 and n % 2 == 0 and n > 0
         xs = grid(rng, n, 8, -16, 16)
+        exact = True
         if rng.random() < 0.2:
+            exact = False
             from ..catalogue import f64_only
             xs = [abs(x) for x in f64_only(rng, n) if abs(x) < 10 ** 30] or xs      # same sign: no cancellation, sums well inside float64
             xs = (xs * n)[:n]
@@ -35,6 +37,10 @@ class _Weighted(Entry):
             b["w"] = rng.choice(WEIGHTS) * sc
         elif mode == "each":
             b["ws"] = [rng.choice(WEIGHTS) * sc for _ in range(n)]
+            if exact and rng.random() < 0.3:          # signed weights (dyadic data only: sums stay exact): a batch's weights may cancel exactly
+                b["ws"] = [w * rng.choice([1, 1, -1]) for w in b["ws"]]
+                if n >= 2 and rng.random() < 0.5:
+                    b["ws"][1] = -b["ws"][0]
         return b
 
     def _shape(self, b, t):
